@@ -311,6 +311,11 @@ def run(rep, tier):
                 dev = 'loop-variable-binding'
             else:
                 dev = 'condition-evaluations'
+        if dev is not None and dev != 'hang':
+            o2 = run_script((text, ans))
+            if o2['trace'] == exp and not o2['timed_out']:
+                rep.outcome('unreproduced-deviation')
+                dev = None
         if dev is None:
             rep.outcome('ok:' + ('semi' if semi else 'newline'))
             rep.traces_validated += 1
